@@ -186,9 +186,26 @@ func zzC18(nsteps, nkeys int, withReopen, preseed bool) {
 				il, xerr := l.ImmutableLedgerAt(int64(ver), 0)
 				zzverif.Assert(xerr == nil, "ImmutableLedgerAt(existing version) succeeds")
 				if xerr == nil {
-					it, xerr := il.Read(zzKey(k))
 					wv, wok := m.committed[ver][k]
-					zzCheckItem(it, xerr, wv, wok, "historical Read")
+					switch zzverif.Choose("hist.access", 3) {
+					case 0:
+						it, xerr := il.Read(zzKey(k))
+						zzCheckItem(it, xerr, wv, wok, "historical Read")
+					case 1:
+						// Get on the historical view: the committed value of that version,
+						// whatever is pending in the live ledger's overlays
+						it, xerr := il.Get(zzKey(k))
+						zzCheckItem(it, xerr, wv, wok, "historical Get")
+					case 2:
+						// a write on the (throw-away) historical view stays there
+						_ = il.Set(&zzItem{K: byte(k), V: zzverif.NondetI64("hist.val")})
+					}
+					// the live mempool view is untouched by any access to a historical view
+					if !m.memFuzzy[k] {
+						it, xerr := l.Get(zzKey(k))
+						mv, mok := m.memView(k)
+						zzCheckItem(it, xerr, mv, mok, "Get after historical access")
+					}
 				}
 			} else {
 				_, xerr := l.ImmutableLedgerAt(1, 0)
